@@ -749,6 +749,27 @@ func runSession(j job) *sessRes {
 			}
 		}
 	}
+	// records whose fields do not fit together (a bitfield without an info dictionary, bitfields of every wrong
+	// length next to each case's info): resume data is input like any other, loading it must not crash
+	for k := range j.Cases {
+		ib := j.Cases[k].infoBytes()
+		for bi, bf := range [][]byte{nil, {0x80}, {0xff, 0xff, 0xff}, make([]byte, 64)} {
+			for ii, inf := range [][]byte{nil, ib} {
+				if ii == 1 && (len(ib) == 0 || k > 3) {
+					continue
+				}
+				if ii == 0 && k > 0 {
+					continue
+				}
+				spec := &boltdbresumer.Spec{InfoHash: make([]byte, 20), Port: port, Name: "z", Info: inf, Bitfield: bf, AddedAt: time.Unix(1700000000, 0), Version: 3}
+				port++
+				if err := rs.Write(fmt.Sprintf("z%d-%d-%d", k, bi, ii), spec); err != nil {
+					core.HarnessError("worker: resumer write: %v", err)
+				}
+				res.NCalls++
+			}
+		}
+	}
 	if err := db.Close(); err != nil {
 		core.HarnessError("worker: bbolt close: %v", err)
 	}
